@@ -150,13 +150,17 @@ def gen_cases(rng, n_cases):
     while len(cases) < n_cases:
         r = rng.random()
         binary = rng.random() < 0.45
-        if r < 0.12:
+        if r < 0.08 and not binary:
+            # printf directives inside the offending line of every malformed-line kind (text format quotes lines in its messages)
+            b, nv_true, nc_true, kinds = solgen.printf_hostile_text(rng)
+            add('printf-hostile-text:' + kinds[0], b, nv_true, nc_true, (0, rng.choice(['all', 'while']), rng.choice(['all', 'while']), rng.choice(['all', 'while', 'all', 'err:1:7'])))
+        elif r < 0.20:
             # hostile count lines of the Options block (each of the four independently), text and binary
             b, nv_true, nc_true, counts = solgen.hostile_counts_file(rng, binary)
             pol = (0, rng.choice(['all', 'while', 'while']), rng.choice(['all', 'while', 'while']), 'all') if rng.random() < 0.8 else solgen.rand_policy(rng)
             add('hostile-counts-bin' if binary else 'hostile-counts-text', b, rng.choice([nv_true, nv_true, nv_true + 3, 0]),
                 rng.choice([nc_true, nc_true, nc_true + 3, 0]), pol, counts=counts)
-        elif r < 0.16:
+        elif r < 0.24:
             # binary file cut inside an element of the dual / primal vector: that element is not in the file
             s0 = solgen.rand_sol(rng, maxn=rng.choice([3, 12]))
             while not (s0.duals or s0.primals):
@@ -173,7 +177,7 @@ def gen_cases(rng, n_cases):
             else:
                 k = rng.randrange(len(s0.primals)); cut = pstart + 8 * k + rng.randint(1, 7); avail = {'dual': len(s0.duals), 'primal': k}
             add('truncate-in-vector-bin', full[:cut], s0.nvars, s0.ncons, (0, rng.choice(['all', 'while']), rng.choice(['all', 'while']), 'all'), avail=avail)
-        elif r < 0.17:
+        elif r < 0.25:
             # binary suffix record whose name is not NUL-terminated inside namelen
             s0 = solgen.rand_sol(rng, maxn=3)
             s0.sufs = []
@@ -183,7 +187,7 @@ def gen_cases(rng, n_cases):
             recb = b'\nSuffix\n' + struct.pack('<iiii', 0, 0, len(nm), len(tb)) + nm + tb
             b = solgen.bin_bytes(s0) + solgen.rec(recb)
             add('bin-name-unterminated', b, s0.nvars, s0.ncons, (0, 'all', 'all', 'all'), namelen=len(nm))
-        elif r < 0.30:
+        elif r < 0.45:
             # valid file, sizes as the reader needs them, read-all handler: full expected events known
             s = solgen.rand_sol(rng, maxn=rng.choice([3, 12, 40]))
             b = solgen.bin_bytes(s) if binary else solgen.text_bytes(s, rng.choice([b'\n', b'\n', b'\r\n']))
@@ -193,12 +197,12 @@ def gen_cases(rng, n_cases):
             else:
                 nv, nc = len(s.primals), len(s.duals)
             add('valid-bin' if binary else 'valid-text', b, nv, nc, (0, 'all', 'all', 'all'), expected=solgen.expected_events(s, binary))
-        elif r < 0.50:
+        elif r < 0.60:
             # valid file x declared sizes {0, smaller, equal, larger} x handler policies
             s = solgen.rand_sol(rng, maxn=rng.choice([3, 12]))
             b = solgen.bin_bytes(s) if binary else solgen.text_bytes(s)
             add('sizes-bin' if binary else 'sizes-text', b, solgen.declared(rng, s.nvars), solgen.declared(rng, s.ncons), solgen.rand_policy(rng))
-        elif r < 0.80:
+        elif r < 0.84:
             s = solgen.rand_sol(rng, maxn=rng.choice([3, 12]))
             b = solgen.bin_bytes(s) if binary else solgen.text_bytes(s)
             muts = []
@@ -207,7 +211,7 @@ def gen_cases(rng, n_cases):
                 muts.append(m)
             pol = solgen.rand_policy(rng) if rng.random() < 0.5 else (0, 'all', 'all', 'all')
             add(('mut-bin:' if binary else 'mut-text:') + muts[0], b, solgen.declared(rng, s.nvars), solgen.declared(rng, s.ncons), pol)
-        elif r < 0.93:
+        elif r < 0.95:
             if binary:
                 b, s = solgen.hostile_suffix_bin(rng)
             else:
@@ -225,6 +229,7 @@ def gen_cases(rng, n_cases):
     return cases
 
 
+EMSG = {}  # case id -> error message returned by the real reader
 FX = [0]   # model flags word for the tree under test, decided by behavioural probes: bit0 = bounds fix 602adf1 (fx), bit1 = Bad_Options message (fm)
 P4 = {'objno': False, 'isuf': False}   # tree has repo_patches/C14-objno-int-range.diff / C14-int-suffix-range.diff (number values are outside the Lean model)
 
@@ -253,6 +258,13 @@ def oracle(c, line):
     msg = msg.split('=')[1]
     if code not in DOCUMENTED:
         bad.append(('%s:undocumented-result:%s' % (fmt, code), 'result %s is not a documented NLW2_SOLReadResultCode' % code))
+    # the message may quote file text verbatim, or not at all: never an expansion of it (file text used as a printf format)
+    em = EMSG.get(c['id'], b'')
+    for m in re.finditer(rb'@@(.*?)@@', em, re.S):
+        if m.group(0) not in c['bytes']:
+            bad.append(('%s:file-text-expanded-in-error-message' % fmt,
+                        'the error message contains %r, the file contains no such text (a line of the file was used as a printf format); message: %r' % (m.group(0)[:60], em[:200])))
+            break
     if code != 'OK' and msg != '1':
         bad.append(('error-without-message:%s' % code, 'error code %s returned with an empty message' % code))
     events = parse_events(evs)
@@ -311,6 +323,11 @@ def run_streams(ck, cases, tag):
     env = {'ASAN_OPTIONS': 'detect_leaks=0:allocator_may_return_null=0:max_allocation_size_mb=3000', 'UBSAN_OPTIONS': 'print_stacktrace=0'}
     rc, out, err = sh([exe, cf, work], env=env, timeout=3000)
     impl = out.split('\n')[:-1] if out.endswith('\n') else out.split('\n')
+    for k, l in enumerate(impl):          # split off the error message text
+        if ' || emsg=' in l:
+            l, _, h = l.partition(' || emsg=')
+            EMSG[l.split(' ')[0]] = bytes.fromhex(h) if h != '-' else b''
+            impl[k] = l
     if rc != 0 or len(impl) != len(cases):
         raise RuntimeError('harness h_solread failed: rc=%s, %d lines for %d cases: %s' % (rc, len(impl), len(cases), err[-800:]))
     drv = ck.driver('drv_c14')
